@@ -1,10 +1,10 @@
 // Bounded stand-in for C06 (lines that yield no row are invisible to every query).
 #![allow(dead_code, unused_imports)]
 // Oracle (metamorphic, from the statement): the output of a query is unchanged when non-admitted lines are inserted at any
-// positions of the input (or of the joined file).  Grid: 5 "worlds" (table definition, pool of admitted lines, kinds of
+// positions of the input (or of the joined file).  Grid: 6 "worlds" (table definition, pool of admitted lines, kinds of
 // non-admitted line: non-matching text, empty line, near-miss, line failing a NOT NULL column - with and without DEFAULT /
-// BOOLEAN columns, two patterns) x every sequence of up to 2 admitted lines x one noise line at each position (kinds
-// rotating) or all kinds at every position x plain / DISTINCT / LIMIT / aggregate / HAVING / INNER and OUTER JOIN statements;
+// BOOLEAN / array columns, two patterns) x every sequence of up to 2 admitted lines x one noise line at each position (kinds
+// rotating) or all kinds at every position x plain / DISTINCT / LIMIT / aggregate / HAVING / INNER and OUTER JOIN statements, in batch and in follow mode;
 // plus the admission rule itself on 13 (definition, line) pairs.
 include!("verif_grid_common.rs");
 include!("verif_grid_qcommon.rs");
@@ -53,6 +53,9 @@ fn verif_grid() {
                 pool: vec!["a=1 b=q", "a=2", "a=1 b=r"], noise: vec!["", "b=q", "nothing", "a= b=z"],
                 statements: ["SELECT x, y FROM t", "SELECT * FROM t WHERE y = 'unknown'", "SELECT DISTINCT y FROM t", "SELECT x FROM t LIMIT 2",
                              "SELECT COUNT(*) AS n FROM t", "SELECT y, COUNT(*) AS n, SUM(x) AS s FROM t GROUP BY y"].iter().map(|s| s.to_string()).collect() },
+        World { name: "array", def: "CREATE TABLE t(line = '^x=([0-9]*) y=([0-9]*)( z)?$', line[1], line[2] => xs INT[]);".to_owned(),
+                pool: vec!["x=1 y=2", "x=3 y=", "x= y=4 z"], noise: vec!["", "x= y=", "x=99999999999999999999 y=", "X=1 y=2", "x= y= z"],
+                statements: ["SELECT xs FROM t", "SELECT COUNT(*) AS n FROM t", "SELECT DISTINCT xs FROM t", "SELECT xs FROM t LIMIT 2", "SELECT array_length(xs) AS n FROM t"].iter().map(|s| s.to_string()).collect() },
         World { name: "join", def: join_def.to_owned(), pool: vec!["u=ann h=alpha", "u=bob h=gamma", "u=cy h=beta", "u=dee h="], noise: vec!["", "zzz", "u= h=alpha", "u=ann"],
                 statements: join_statements(&hosts) },
     ];
@@ -86,8 +89,26 @@ fn verif_grid() {
             }
         }
     }
+    // follow mode (one engine, line by line): a non-admitted line shows nothing, and what the other lines show is unchanged
+    for w in worlds.iter().filter(|w| w.name != "join") {
+        for (bi, base) in sequences(&w.pool, 2).into_iter().enumerate() {
+            for (si, st) in w.statements.iter().enumerate() {
+                let (def, st2, base2, noise) = (w.def.clone(), st.clone(), base.clone(), w.noise.clone());
+                g.case(&format!("follow-{}-b{}-s{}", w.name, bi, si), move || {
+                    let reference: Vec<Vec<String>> = incremental(&def, &st2, &base2)?.into_iter().flatten().collect();
+                    let input = with_noise(&base2, &noise, None);
+                    let shown = incremental(&def, &st2, &input)?;
+                    for (line, s) in input.iter().zip(shown.iter()) {
+                        if noise.contains(line) && s.is_some() { return Err(format!("{} in follow mode: the non-admitted line {:?} made the engine show {:?} (definition: {})", st2, line, s, def)); }
+                    }
+                    let got: Vec<Vec<String>> = shown.into_iter().flatten().collect();
+                    if got == reference { Ok(()) } else { Err(format!("{} in follow mode over {:?} shows {:?}; with non-admitted lines everywhere it shows {:?} (definition: {})", st2, base2, reference, got, def)) }
+                });
+            }
+        }
+    }
     // the joined side: non-admitted lines in the joined file change nothing
-    for (bi, base) in sequences(&worlds[4].pool, 2).into_iter().enumerate() {
+    for (bi, base) in sequences(&worlds[5].pool, 2).into_iter().enumerate() {
         for (si, (a, c)) in join_statements(&hosts).into_iter().zip(join_statements(&hosts_noisy).into_iter()).enumerate() {
             let base2 = base.clone();
             g.case(&format!("joined-side-b{}-s{}", bi, si), move || {
